@@ -1,6 +1,6 @@
 //go:build go1.21
 
-// Package v8x is the "instantiate and call" client for node (V8): a long-lived `node js/exec.js`
+// Package v8x is the "instantiate and call" client for node (V8): a long-lived `node js/v8x.js`
 // process that compiles a module, instantiates it with recording host stubs, calls exports and
 // returns results and host-call traces as strings. It complements watgen.StartV8 (validate and
 // inspect only), whose protocol and script are untouched.
@@ -89,9 +89,9 @@ type V8 struct {
 	Timeout time.Duration // per request; a request that exceeds it kills node and returns an error
 }
 
-// Start launches node on <verifDir>/js/exec.js.
+// Start launches node on <verifDir>/js/v8x.js.
 func Start(verifDir string) (*V8, error) {
-	script := filepath.Join(verifDir, "js", "exec.js")
+	script := filepath.Join(verifDir, "js", "v8x.js")
 	if _, err := os.Stat(script); err != nil {
 		return nil, fmt.Errorf("v8x: %v", err)
 	}
